@@ -35,12 +35,13 @@ CLAIMS = {
              "standard 1/2/4-byte extended form, locating and decoding destination and source in 7E fmt fmt dest "
              "src tail returns the same logical/physical values and lengths for any tail, the constructed address "
              "objects are equal to the originals, and the encoding is injective (no attribution to another "
-             "station); out-of-range values are refused. Partial: the statement for all accepted addresses is "
-             "refuted in Coq by the witness of known finding F13a; F13d (client with physical part) is the second "
-             "listed finding. Tie: correspondence exhaustive for single addresses, grid+random for pairs, and on "
-             "address location in well-formed, short and random frames; search through all six real frame kinds.",
-        note="Partial (two known findings excluded from the proved domain, see known_findings.json). Trusted: Coq "
-             "kernel + VM, extraction + driver, Python harness; model follows the fix commit e6b12e3.",
+             "station); out-of-range values are refused; and EVERY address the library accepts lies in that domain "
+             "(addr_make l p s = Ok a -> addr_ok a), so the statements hold for all accepted addresses. Tie: "
+             "correspondence exhaustive for single addresses, grid+random for pairs, and on address location in "
+             "well-formed, short and random frames; search through all six real frame kinds.",
+        note="Full statement since repo fix f38aea9 (addresses without a 1/2/4-byte form - server upper > 127 without lower, "
+             "client with a physical part - are refused at construction; formerly findings F13a/F13d). Trusted: Coq "
+             "kernel + VM, extraction + driver, Python harness; model follows the fix commits e6b12e3 and f38aea9.",
         technique="Coq proof (14-bit kernel sweeps + structural lemmas) + correspondence + frame-level search",
         design="4/C13"),
     "C17": dict(
